@@ -34,15 +34,15 @@ Proof.
   injection H as <-. unfold tagged_rules. simpl. apply store_add_perm.
 Qed.
 
-Lemma conj_fold_tagged : forall m ps st st',
-  mfold (conj_step m) ps st = Ok st' ->
+Lemma conj_fold_tagged : forall m base ps st st',
+  mfold (conj_step m base) ps st = Ok st' ->
   exists rs,
-    Forall2 (fun p r => conjoin_rules_model (fst (snd p)) (snd (snd p)) m = Ok r) ps rs /\
+    Forall2 (fun p r => conjoin_rules_model base (fst (snd p)) (snd (snd p)) m = Ok r) ps rs /\
     Permutation (tagged_rules st') (tagged_rules st ++ combine rs (map fst ps)).
 Proof.
-  induction ps as [|p ps IH]; simpl; intros st st' H.
+  intros m base. induction ps as [|p ps IH]; simpl; intros st st' H.
   - injection H as <-. exists []. split; [constructor|]. rewrite app_nil_r. reflexivity.
-  - destruct (conj_step m st p) as [st1|] eqn:E; [|discriminate].
+  - destruct (conj_step m base st p) as [st1|] eqn:E; [|discriminate].
     unfold conj_step in E. apply bind_ok in E. destruct E as [r [E1 E2]].
     apply add_rule_tagged in E2. apply IH in H. destruct H as [rs [F P]].
     exists (r :: rs). split; [constructor; assumption|]. simpl.
@@ -168,7 +168,8 @@ Theorem conj_hrg_facts : forall h1 h2 s st,
     NoDup (map snd (tagged_rules st)) /\
     (forall r i j, In (r, (i, j)) (tagged_rules st) ->
        exists r1 r2, nth_error (all_rules h1) i = Some r1 /\ nth_error (all_rules h2) j = Some r2 /\
-                     conjoinable_model r1 r2 = true /\ conjoin_rules_model r1 r2 m = Ok r) /\
+                     conjoinable_model r1 r2 = true /\
+                     conjoin_rules_model (id_bound h1 h2) r1 r2 m = Ok r) /\
     (forall i j r1 r2, nth_error (all_rules h1) i = Some r1 -> nth_error (all_rules h2) j = Some r2 ->
        conjoinable_model r1 r2 = true -> exists r, In (r, (i, j)) (tagged_rules st)).
 Proof.
